@@ -239,6 +239,19 @@ def run_case(i, rng, rec, tier, state):
         ok = r1.shape == (1,) and res.shape == (len(pts),) and bool(r1[0]) == bool(res[j])
         rec.check("batch-vs-single", ok, f"{which}.is_inside/batch-differs-from-single",
                   lambda: dict(info, point=p, index=int(j), single=r1))
+    sub = np.sort(rng.choice(len(arg), size=min(40, len(arg)), replace=False))
+    for lab, arr in points.layouts(arg[sub]):
+        rec.cls("layout:" + lab)
+        keep = arr.copy()
+        try:
+            rl = np.asarray(s.is_inside(arr))
+        except Exception as e:
+            rec.violation("batch-vs-single", f"{which}.is_inside/rejects-{lab}-array", dict(info, exc=repr(e)[:300]))
+            continue
+        cm = band[sub] > MARGIN * bsize
+        rec.check("batch-vs-single", rl.shape == (len(sub),) and res.shape == (len(pts),) and bool(np.all(rl[cm] == res[sub][cm])),
+                  f"{which}.is_inside/answer-depends-on-memory-layout:{lab}", lambda: dict(info, layout=lab))
+        rec.check("batch-vs-single", np.array_equal(arr, keep), f"{which}.is_inside/modifies-argument:{lab}", lambda: dict(info, layout=lab))
     ip = np.rint(arg[rng.choice(len(arg), size=min(16, len(arg)), replace=False)])
     if float(np.abs(ip).max()) < 2 ** 30:
         for form, argi in (("int64", ip.astype(np.int64)), ("int32", ip.astype(np.int32)), ("list-of-int-lists", [[int(x) for x in row] for row in ip])):
